@@ -343,6 +343,7 @@ pub fn chunk_length_sweep(rep: &Report, tag: &str, conformance: bool) {
 pub fn run(rep: &'static Report) {
     let seed = rep.seed;
     rep.set_rule("E-GRID vs REF: every point of the stated products (lengths x read partitions x key sets; every composition of L<=8 into chunk sizes; counter sweep; golden files) is executed once on the real code and compared byte for byte with the executable specification; distinct non-trivial = distinct (mode, direction, keys, length, partition/chunking) points with at least one chunk record compared");
+    rep.rule_add("Encryption with one or two interrupted reads (and one short read) at any call: a completed file is the format's file for the plaintext.");
     rep.rule_add("The four library operations on threads with 128/192/256 KiB of stack (child processes) give the bytes they give on a large stack.");
     rep.rule_add("CLI path layouts: 7 (input, output) placements incl. the same base name in different directories x 4 commands.");
     rep.rule_add("Every final-chunk length 0..=65536 at production chunk size (alone; after a full chunk for every 17th / every length): encryptor bytes == REF bytes, decryptor opens them.");
@@ -616,6 +617,7 @@ pub fn run(rep: &'static Report) {
     chunk_length_sweep(rep, "C06", true);
     cli_path_layouts(rep);
     small_stacks(rep);
+    interrupted_reads(rep);
     rep.set_exhaustive(true);
 }
 
@@ -875,6 +877,49 @@ fn small_stacks(rep: &Report) {
     rep.extra("small_stack_sizes_kib", json!([128, 192, 256]));
 }
 
+/// Conformance of the writer when a read of the plaintext is interrupted (EINTR) at any one call: the encryptor may report
+/// the interruption, but a file it completes (Ok) is the format's file for the plaintext -- consecutive chunk numbers,
+/// REF reads it back.
+fn interrupted_reads(rep: &Report) {
+    use crate::env::*;
+    let seed = rep.seed;
+    let tkey = derive32(seed, "c06-intr-key");
+    let ids = idents(seed);
+    let e = derive32(seed, "c06-intr-e");
+    let pay = derive32(seed, "c06-intr-pay");
+    let mut items: Vec<(String, Subject, Vec<u8>)> = vec![];
+    for (cs, l) in [(2u32, 7usize), (3, 10), (1, 4)] {
+        items.push((format!("tiny cs={} len={}", cs, l), Subject::TinyEnc { key: hx(&tkey), aad: hx(&r::PASS_MAGIC), cs }, plaintext(seed ^ 0x6c, l)));
+    }
+    items.push(("key_encrypt 2 chunks".into(), Subject::KeyEnc { s: hx(&ids[0].sk), s_pub: hx(&ids[0].pk), r_pub: hx(&ids[1].pk), e: hx(&e), payload: hx(&pay) }, plaintext(seed ^ 0x6d, 65536 + 9)));
+    let execs = std::sync::atomic::AtomicU64::new(0);
+    items.par_iter().for_each(|(label, sub, p)| {
+        let mut menu = Menu::shorts(ReadMode::Bounded, false).no_record();
+        menu.read_intr = true;
+        let mut b = Budget::new(1, 0, 2);
+        b.shorts_total = 1;
+        let st = explore(p, menu, b, &|e| run_env(sub, e), &|env, res| {
+            if !res.is_ok() {
+                return;
+            }
+            let good = match sub {
+                Subject::TinyEnc { cs, .. } => matches!(r::read_chunks(&tkey, &r::PASS_MAGIC, &env.sink, *cs), Ok(k) if k.plaintext == *p && r::write_chunks(&tkey, &r::PASS_MAGIC, p, &k.chunking) == env.sink),
+                _ => matches!(r::read_key_file(&ids[1].sk, &env.sink), Ok(k) if k.parsed.plaintext == *p),
+            };
+            if !good {
+                let mut c = Case::new(sub, p, menu, env).json(json!({"label":label}));
+                c["kind"] = json!("intr-read");
+                rep.violation("enc-ok-but-not-conforming-after-an-interrupted-read", c, format!("{}: Ok under [{}], but the {} bytes written are not the format's file for the plaintext", label, describe(env), env.sink.len()));
+            }
+        })
+        .unwrap_or_else(|e| crate::report::machinery(&e));
+        execs.fetch_add(st.executions, std::sync::atomic::Ordering::Relaxed);
+        rep.nontrivial(format!("intr-read-{}", label).as_bytes());
+    });
+    rep.eval(execs.load(std::sync::atomic::Ordering::Relaxed));
+    rep.extra("interrupted_read_executions", json!(execs.load(std::sync::atomic::Ordering::Relaxed)));
+}
+
 fn cli_conformance(rep: &Report) {
     use crate::proc::{self, Cmd, Scratch};
     let seed = rep.seed;
@@ -927,6 +972,10 @@ fn cli_conformance(rep: &Report) {
 }
 
 pub fn replay(rep: &'static Report, case: &Value) {
+    if case["kind"] == "intr-read" {
+        interrupted_reads(rep);
+        return;
+    }
     if case["kind"] == "stack" {
         small_stacks(rep);
         return;
